@@ -31,6 +31,7 @@ from .errors import (
     JSTypeError,
     JSReferenceError,
     JSRangeError,
+    JSSyntaxError,
     MemoryLimitError,
     TimeLimitError,
 )
@@ -282,6 +283,9 @@ class VM:
         except JSRangeError as e:
             # Convert Python JSRangeError to JavaScript RangeError
             self._handle_python_exception("RangeError", str(e))
+        except JSSyntaxError as e:
+            # Raised by built-ins that parse at run time (JSON.parse, RegExp)
+            self._handle_python_exception("SyntaxError", str(e))
         except _JSThrow as e:
             # A throw that crossed native code: look for the handler again from here
             self._throw(e.value)
@@ -2121,7 +2125,7 @@ class VM:
                 arr.set("input", s)
                 return arr
 
-            from .regex import RegExp as InternalRegExp
+            from .values import compile_regexp
 
             if isinstance(pattern, JSRegExp):
                 regex_internal = pattern._internal
@@ -2134,7 +2138,7 @@ class VM:
                     poll_callback = (
                         lambda: time.monotonic() - self.start_time > self.time_limit
                     )
-                regex_internal = InternalRegExp(to_string(pattern), "", poll_callback)
+                regex_internal = compile_regexp(to_string(pattern), "", poll_callback)
                 is_global = False
 
             try:
@@ -2189,7 +2193,7 @@ class VM:
             if pattern is None:
                 return 0  # Match empty string at start
 
-            from .regex import RegExp as InternalRegExp
+            from .values import compile_regexp
 
             if isinstance(pattern, JSRegExp):
                 regex_internal = pattern._internal
@@ -2200,7 +2204,7 @@ class VM:
                     poll_callback = (
                         lambda: time.monotonic() - self.start_time > self.time_limit
                     )
-                regex_internal = InternalRegExp(to_string(pattern), "", poll_callback)
+                regex_internal = compile_regexp(to_string(pattern), "", poll_callback)
 
             try:
                 vm_regex = regex_internal._create_vm()
